@@ -37,11 +37,19 @@ fn child(alive: &AtomicBool, yields: usize) {
 struct LateGuard<'a>(&'a AtomicBool);
 impl Drop for LateGuard<'_> {
     fn drop(&mut self) {
-        coroutine::yield_now();
-        if !self.0.load(Ordering::SeqCst) {
-            BAD.fetch_add(1, Ordering::SeqCst);
+        // (the yield is a cancellation point: for a cancelled arm it may end in the Cancel panic, the look at the
+        // frame happens all the same)
+        struct Look<'a>(&'a AtomicBool);
+        impl Drop for Look<'_> {
+            fn drop(&mut self) {
+                if !self.0.load(Ordering::SeqCst) {
+                    BAD.fetch_add(1, Ordering::SeqCst);
+                }
+                STEPS.fetch_add(1, Ordering::SeqCst);
+            }
         }
-        STEPS.fetch_add(1, Ordering::SeqCst);
+        let _l = Look(self.0);
+        coroutine::yield_now();
     }
 }
 
